@@ -122,3 +122,77 @@ Proof.
     destruct (infer_schema_row fs _ Hinf Hx) as (s & Es & Hs). rewrite Es. cbn [bind].
     rewrite (reduce_merge_reaches fs Hinf rows1 r rows2 s Hs Hrows' Hr). cbn [bind]. now rewrite Hnn.
 Qed.
+
+(* ================================================================ Rows are matched to the schema BY NAME *)
+Lemma verify_named_ext ns vs ns' vs' : forall fs,
+  (forall f, In f fs -> row_get ns vs (sf_name f) = row_get ns' vs' (sf_name f)) ->
+  verify_named ns vs fs = verify_named ns' vs' fs.
+Proof.
+  induction fs as [|[n ty nl m] fs IH]; intro H; [reflexivity|]. simpl.
+  pose proof (H (SField n ty nl m) (or_introl eq_refl)) as H0. simpl in H0. rewrite H0.
+  destruct (row_get ns' vs' n) as [x|e]; simpl; [|reflexivity].
+  destruct (verify ty nl x) as [[]|e]; simpl; [|reflexivity]. apply IH. intros f Hf. apply H. now right.
+Qed.
+
+Lemma mapM_nth {A B} (f : A -> res B) : forall l r i x, mapM f l = Ok r -> nth_error l i = Some x ->
+  exists y, nth_error r i = Some y /\ f x = Ok y.
+Proof.
+  induction l as [|a l IH]; intros r i x H Hi; [destruct i; discriminate|]. simpl in H.
+  destruct (f a) as [b|e] eqn:Ea; simpl in H; [|discriminate].
+  destruct (mapM f l) as [bs|e] eqn:El; simpl in H; [|discriminate]. injection H as <-.
+  destruct i as [|i]; simpl in *.
+  - injection Hi as <-. eauto.
+  - eapply IH; eauto.
+Qed.
+
+Section ByName.
+  Variable local : Z.
+
+  (* a Row that lists the fields of the schema in another order (duplicate-free) and holds, under every field
+     name, the value of a valid row: verification passes (values are looked up by name) and createDataFrame /
+     collect gives the values back under the right names *)
+  Theorem create_with_schema_by_name fs vals names' vals' :
+    inferable (TStruct fs) -> is_row_of (TStruct fs) (PRow (map sf_name fs) vals) ->
+    strs_eqb names' (map sf_name fs) = false -> nodupb names' = true ->
+    strs_eqb (sort_strs names') (sort_strs (map sf_name fs)) = true ->
+    mapM (row_get names' vals') (map sf_name fs) = Ok vals ->
+    verify (TStruct fs) true (PRow names' vals') = Ok tt /\
+    create_with_schema local (TStruct fs) [PRow names' vals']
+      = Ok [tz_local local (PRow (map sf_name fs) vals)].
+  Proof.
+    intros Hinf Hrow Hne Hnd Hperm Hvals.
+    assert (Hv : verify (TStruct fs) true (PRow names' vals') = Ok tt).
+    { rewrite verify_struct_row.
+      rewrite <- (verify_named_ext (map sf_name fs) vals names' vals').
+      - rewrite <- verify_struct_row with (n := true). destruct Hrow as [_ Hr]. apply verify_ivalue; auto.
+      - intros f Hf. destruct (In_nth_error _ _ Hf) as (i & Hi).
+        assert (Hn : nth_error (map sf_name fs) i = Some (sf_name f)) by (now rewrite nth_error_map, Hi).
+        destruct (mapM_nth _ _ _ i _ Hvals Hn) as (y & Hy & Ey). rewrite Ey.
+        destruct Hinf as (Hnodup & _). now apply (row_get_nodup _ _ i). }
+    split; [exact Hv|].
+    assert (Ht : to_internal local (TStruct fs) (PRow names' vals')
+                 = Ok (tz_local local (PRow (map sf_name fs) vals))).
+    { destruct Hrow as [_ Hr]. rewrite <- (to_internal_ivalue local (TStruct fs) _ Hr).
+      rewrite !to_internal_struct_row_gen. rewrite match_fields_same.
+      unfold match_fields_by_name. rewrite Hne, Hnd, Hperm. cbn [negb andb]. rewrite Hvals. reflexivity. }
+    unfold create_with_schema. cbn [each]. rewrite Hv. cbn [bind mapM]. rewrite Ht. cbn [bind tz_local make_row schema_names].
+    reflexivity.
+  Qed.
+End ByName.
+
+(* regression: the replay of the repaired finding create_s:row-field-order:positional-conversion *)
+Example by_name_regression :
+  create_with_schema 0
+    (TStruct [SField (lit "b") (TAtom AString) true []; SField (lit "a") (TAtom ALong) true []])
+    [PRow [lit "a"; lit "b"] [PInt 1; PStr (lit "x")]]
+  = Ok [PRow [lit "b"; lit "a"] [PStr (lit "x"); PInt 1]] /\
+  create_with_schema 0
+    (TStruct [SField (lit "b") (TAtom ATimestamp) true []; SField (lit "a") (TAtom ALong) true []])
+    [PRow [lit "a"; lit "b"] [PInt 1; PDatetime 5 None]]
+  = Ok [PRow [lit "b"; lit "a"] [PDatetime 5 None; PInt 1]].
+Proof. vm_compute. split; reflexivity. Qed.
+
+Lemma verify_row_by_name ns vs ns' vs' fs n :
+  (forall f, In f fs -> row_get ns vs (sf_name f) = row_get ns' vs' (sf_name f)) ->
+  verify (TStruct fs) n (PRow ns vs) = verify (TStruct fs) n (PRow ns' vs').
+Proof. intro H. rewrite !verify_struct_row. now apply verify_named_ext. Qed.
